@@ -185,3 +185,94 @@ class Explorer:
         d['outcomes'] = dict(self.outcomes)
         d['cover'] = dict(self.cover)
         return d
+
+
+# ---------------------------------------------------------------------------------------------------
+# level-synchronous parallel BFS: the master owns the set of canonical keys; workers rebuild each frontier
+# state from its history (on a copy of the initial world), evaluate the state monitors, expand it and return
+# the keys / histories of its successors.  Every state is therefore reached twice - once by forking its
+# parent, once by replaying its history from the initial world - and the two canonical keys must agree
+# (that is the replay validation, done for every state, not for a sample).
+
+_PAR = {}
+
+
+def _par_expand(job):
+    history, want_key = job
+    ex = _PAR['ex']
+    if 'w0' not in _PAR:
+        _PAR['w0'] = ex.init_fn()
+        _PAR['base'] = len(_PAR['w0'].history)
+    w = _PAR['w0'].fork()
+    for ev in history[_PAR['base']:]:
+        ex.apply_fn(w, ev)
+    if want_key is not None and ex.key(w) != want_key:
+        raise HarnessError('replay of %r from the initial world diverged from the forked world' % (history,))
+    before = collections.Counter(ex.cover)
+    viol, children = [], []
+    for sm in ex.state_monitors:
+        for tup in sm(w) or ():
+            viol.append((tuple(tup), tuple(w.history)))
+    evs = ex.enabled_fn(w)
+    for ev in evs:
+        c = w.fork()
+        ex.apply_fn(c, ev)
+        for m in ex.monitors:
+            for tup in m(w, ev, c) or ():
+                viol.append((tuple(tup), tuple(c.history)))
+        children.append((ex.key(c), tuple(c.history)))
+    delta = collections.Counter(ex.cover)
+    delta.subtract(before)
+    return children, viol, dict(delta), len(evs)
+
+
+def run_parallel(ex, jobs):
+    """runs Explorer `ex` level by level over `jobs` forked worker processes; fills the same result fields as run()"""
+    import multiprocessing
+    t0 = time.time()
+    _PAR.clear()
+    _PAR['ex'] = ex
+    w0 = ex.init_fn()
+    k0 = ex.key(w0)
+    seen = {k0}
+    frontier = [(tuple(w0.history), None)]
+    ex.states = 1
+    depth = 0
+    ctx = multiprocessing.get_context('fork')
+    with ctx.Pool(jobs) as pool:
+        while frontier:
+            if ex.max_depth is not None and depth >= ex.max_depth:
+                ex.caps_hit.append('max_depth')
+                break
+            nxt = []
+            chunk = max(1, min(64, len(frontier) // (jobs * 4) or 1))
+            for children, viol, delta, nev in pool.imap_unordered(_par_expand, frontier, chunksize=chunk):
+                ex.cover.update(delta)
+                if nev == 0:
+                    ex.outcomes['terminal'] += 1
+                for tup, hist in viol:
+                    ex._record(tup, hist)
+                for k, hist in children:
+                    ex.transitions += 1
+                    if k in seen:
+                        continue
+                    seen.add(k)
+                    ex.states += 1
+                    if len(ex.sample_histories) < 5 and len(hist) >= 3:
+                        ex.sample_histories.append([repr(e) for e in hist])
+                    nxt.append((hist, k))
+            ex.replays_validated += sum(1 for h, k in frontier if k is not None)
+            frontier = nxt
+            depth += 1
+            ex.max_depth_seen = depth if frontier else ex.max_depth_seen
+            if ex.max_states and ex.states >= ex.max_states:
+                ex.caps_hit.append('max_states=%d' % ex.max_states)
+                break
+            if ex.time_cap and time.time() - t0 > ex.time_cap:
+                ex.caps_hit.append('time_cap=%ds' % ex.time_cap)
+                break
+    ex.max_depth_seen = max(ex.max_depth_seen, depth - 1)
+    ex.completed = not frontier and not ex.caps_hit
+    ex.wall = time.time() - t0
+    _PAR.clear()
+    return ex
